@@ -13,6 +13,12 @@ package main
 // tree and commit object that appeared in the object store during the session (entries as stored; author and
 // committer lines; the "extra" tree of every commit made of several operations). coq/K_C15.v compares with the
 // frame model (Frame.v).
+//
+// The library actions of a session either open the repository anew each time (like the binary) or share one opened
+// repository (input "keep": a long-lived process, like the web and terminal interfaces). Between git-bug's actions the
+// host's user may run stock git (pack-refs, gc, fetch): the repository is looked at just before and just after such a
+// command, and what git-bug must leave alone is compared over every stretch between two of them. After every action
+// git for-each-ref is asked which references it finds broken.
 
 import (
 	"bytes"
@@ -23,6 +29,7 @@ import (
 	"os"
 	"os/exec"
 	"path/filepath"
+	"reflect"
 	"regexp"
 	"sort"
 	"strings"
@@ -38,7 +45,7 @@ import (
 
 type c15Action struct {
 	K      string `json:"k"`             // kind, see c15Session.do
-	Via    string `json:"via,omitempty"` // "cli" | "lib"
+	Via    string `json:"via,omitempty"` // "cli" | "lib"; "" = not git-bug: the second user ("peer") or the host's user running stock git ("pack-refs", "gc", "git-fetch")
 	E      int    `json:"e,omitempty"`   // ordinal choosing the entity / identity
 	N      int    `json:"n,omitempty"`   // number of attachments, labels, keys
 	S      string `json:"s,omitempty"`   // text argument (bridge name, hostile id)
@@ -65,6 +72,9 @@ type c15Host struct {
 type c15Input struct {
 	Host    c15Host     `json:"host"`
 	Actions []c15Action `json:"actions"`
+	// the library actions of the session share ONE opened repository, like the web interface, the terminal interface or any
+	// program built on the library (a long-lived process); otherwise every action opens the repository anew, like the binary
+	Keep bool `json:"keep,omitempty"`
 }
 
 type c15Driver struct{}
@@ -149,6 +159,22 @@ func c15GenSession(r *Rand, i int, maxActions int) c15Input {
 			a.F = append(a.F, []int{0, 1, 1, 1, 2, 3}[r.Intn(6)])
 		}
 	}
+	// a long-lived process: the library actions share one opened repository
+	in.Keep = mode != "cli" && r.Chance(1, 2)
+	// the host's user looks after the repository with stock git
+	maint := func() c15Action {
+		kinds := []string{"pack-refs", "pack-refs", "gc", "gc", "git-fetch", "git-fetch"}
+		if in.Keep {
+			// go-git does not look for new packs once it has listed them: after a git gc a long-lived process mostly fails
+			// to read ("object not found") and little else is exercised, so collect less often there
+			kinds = []string{"pack-refs", "pack-refs", "pack-refs", "gc", "git-fetch", "git-fetch"}
+		}
+		a := c15Action{K: kinds[r.Intn(6)], N: r.Intn(6)}
+		if a.K == "git-fetch" {
+			a.Remote = remote()
+		}
+		return a
+	}
 	in.Actions = append(in.Actions, c15Action{K: "user-new", Via: via(), Cwd: cwd()})
 	for k := r.Range(0, 2); k > 0; k-- {
 		a := c15Action{K: "bug-new", Via: via(), Cwd: cwd()}
@@ -164,7 +190,7 @@ func c15GenSession(r *Rand, i int, maxActions int) c15Input {
 	wiped := false
 	for len(in.Actions) < n {
 		a := c15Action{Via: via(), E: r.Intn(1000), Cwd: cwd()}
-		switch x := r.Intn(43); {
+		switch x := r.Intn(45); {
 		case x < 6:
 			a.K = "bug-new"
 			if a.Via == "lib" && r.Chance(1, 2) {
@@ -216,8 +242,8 @@ func c15GenSession(r *Rand, i int, maxActions int) c15Input {
 			} else {
 				a.K = "user-adopt"
 			}
-		case x < 40:
-			a.K, a.Via = "pack-refs", ""
+		case x < 42:
+			a = maint()
 		default:
 			multi(&a, r.Chance(1, 4))
 		}
@@ -226,6 +252,20 @@ func c15GenSession(r *Rand, i int, maxActions int) c15Input {
 		if !wiped && len(in.Actions) > 4 && r.Chance(1, 40) {
 			in.Actions = append(in.Actions, c15Action{K: "wipe", Via: via()})
 			wiped = true
+		}
+	}
+	if !wiped && r.Chance(1, 4) {
+		// rounds of synchronisation with stock git's maintenance in between: what was fetched or pushed before is packed,
+		// collected or fetched again by the host's user, the second user goes on, git-bug synchronises again
+		rem := remote()
+		in.Actions = append(in.Actions, c15Action{K: []string{"pull", "push"}[r.Intn(2)], Via: via(), Remote: rem, Cwd: cwd()})
+		for k := 1 + r.Intn(3)/2; k > 0; k-- {
+			m := maint()
+			if m.K == "git-fetch" {
+				m.Remote = rem
+			}
+			in.Actions = append(in.Actions, m, c15Action{K: "peer", Remote: rem, E: r.Intn(1000), N: r.Range(1, 3)},
+				c15Action{K: "pull", Via: via(), Remote: rem, Cwd: cwd()})
 		}
 	}
 	if !wiped && r.Chance(1, 8) {
@@ -242,7 +282,7 @@ func c15GenSession(r *Rand, i int, maxActions int) c15Input {
 }
 
 func (c15Driver) Gen(r *Rand, tier string) []json.RawMessage {
-	n, maxA := 112, 16
+	n, maxA := 104, 16 // 104 random sessions + 8 targeted maintenance sessions: as many cases as before those were added
 	if tier == "thorough" {
 		n, maxA = 1800, 30
 	}
@@ -301,6 +341,32 @@ func c15Targeted() []json.RawMessage {
 			{K: "bug-new", Via: via}, {K: "comment", Via: via}, {K: "peer", Remote: "origin", N: 1}, {K: "pull", Via: via, Remote: "origin"},
 			{K: "push", Via: via, Remote: "origin"}}}))
 	}
+	// (4) a long-lived process (one opened repository for the whole session, like the web and terminal interfaces) and
+	// stock git's maintenance between two synchronisations: the references git-bug wrote are packed (git pack-refs, git gc),
+	// collected, fetched again or pruned by the host's user; the second user goes on; git-bug synchronises again
+	for i, ms := range [][2]c15Action{
+		{{K: "pack-refs"}, {K: "gc"}},
+		{{K: "pack-refs", N: 1}, {K: "pack-refs"}},
+		{{K: "git-fetch", N: 1, Remote: "origin"}, {K: "pack-refs"}},
+		{{K: "git-fetch", N: 2, Remote: "origin"}, {K: "pack-refs"}},
+		{{K: "git-fetch", N: 0, Remote: "origin"}, {K: "gc", N: 1}},
+		{{K: "gc"}, {K: "pack-refs"}},
+		{{K: "gc", N: 2}, {K: "gc"}},
+		{{K: "pack-refs", N: 1}, {K: "gc", N: 1}}} {
+		via, keep := "lib", true
+		if i >= 6 {
+			via, keep = "cli", false // the same through the binary: every command is a process of its own
+		}
+		acts := []c15Action{{K: "user-new", Via: via}, {K: "bug-new", Via: via}, {K: "push", Via: via, Remote: "origin"},
+			{K: "peer", Remote: "origin", N: 2}}
+		if i%2 == 0 {
+			acts = append(acts, c15Action{K: "pull", Via: via, Remote: "origin"})
+		}
+		acts = append(acts, ms[0], c15Action{K: "peer", Remote: "origin", N: 2}, c15Action{K: "pull", Via: via, Remote: "origin"},
+			c15Action{K: "comment", Via: via}, c15Action{K: "push", Via: via, Remote: "origin"},
+			ms[1], c15Action{K: "peer", Remote: "origin", N: 1, E: 2}, c15Action{K: "pull", Via: via, Remote: "origin"})
+		res = append(res, mustJSON(c15Input{Keep: keep, Host: c15Host{Packed: i%2 == 1, Notes: i%3 == 0, Linked: i == 4}, Actions: acts}))
+	}
 	return res
 }
 
@@ -324,6 +390,17 @@ type c15Session struct {
 	wrote   bool
 	cwd     string // of the action being run
 
+	kept      repository.TestedRepo // the repository opened once for the whole session (input "keep")
+	breaks    [][2]c15Snap          // around every command of the host's user (stock git): the repository just before and just after it
+	nHostUser int                   // number of commands of the host's user
+	maintBad  []string              // commands of the host's user that stock git refused to complete
+	broken    map[string]string     // references stock git reports as broken -> when it was first seen
+	refNotice map[string]bool       // every other warning or error line of git for-each-ref
+
+	harvested  map[string]bool // objects already read by written()
+	seenTrees  []c15Tree
+	seenIdents [][2]string
+	harvestErr error
 	objsBefore map[string]string // the trees and commits the host had before the session
 	extras     []c15Extra        // per commit of several staged operations: their files, the "extra" tree that was stored
 }
@@ -583,6 +660,7 @@ func (s *c15Session) objects() map[string]string {
 }
 
 func (s *c15Session) cleanup() {
+	s.dropKept()
 	if s.peer != nil {
 		_ = s.peer.Close()
 	}
@@ -617,10 +695,30 @@ func c15FileDigest(p string, info fs.FileInfo) string {
 	return c15Digest(append([]byte(fmt.Sprintf("%o:", info.Mode().Perm()&0o111)), b...))
 }
 
+var c15BrokenRe = regexp.MustCompile(`^(?:warning|error): (?:ignoring )?(broken ref|dangling symref|ref with broken name) (\S+)`)
+
+// refs: what git for-each-ref lists; the references it warns about (an empty or malformed file below refs/ is a "broken
+// ref" that git skips) are remembered with the moment they were first seen
 func (s *c15Session) refs() [][2]string {
 	out := s.mustGit(s.host, "for-each-ref", "--format=%(refname) %(objectname)")
 	var res [][2]string
 	for _, l := range strings.Split(strings.TrimSpace(out), "\n") {
+		if m := c15BrokenRe.FindStringSubmatch(l); m != nil {
+			if s.broken == nil {
+				s.broken = map[string]string{}
+			}
+			if _, seen := s.broken[m[2]]; !seen {
+				s.broken[m[2]] = fmt.Sprintf("%s, first reported after action %d", m[1], s.counter)
+			}
+			continue
+		}
+		if strings.HasPrefix(l, "warning:") || strings.HasPrefix(l, "error:") || strings.HasPrefix(l, "fatal:") {
+			if s.refNotice == nil {
+				s.refNotice = map[string]bool{}
+			}
+			s.refNotice[l] = true
+			continue
+		}
 		if f := strings.Fields(l); len(f) == 2 {
 			res = append(res, [2]string{f[0], f[1]})
 		}
@@ -754,12 +852,65 @@ func (s *c15Session) light() map[string]string {
 
 // ------------------------------------------------------------------ library side
 
+// c15Kept: the repository of a long-lived process; the actions' Close does nothing, the session closes it at the end
+type c15Kept struct{ repository.TestedRepo }
+
+func (c15Kept) Close() error { return nil }
+
 func (s *c15Session) open() repository.TestedRepo {
+	if s.in.Keep && s.kept != nil {
+		return c15Kept{s.kept}
+	}
 	r, err := repository.OpenGoGitRepo(s.dirOf(s.cwd), "git-bug", []repository.ClockLoader{bug.ClockLoader})
 	if err != nil {
 		panic("harness: cannot open the host repository through go-git: " + err.Error())
 	}
-	return krRepo{TestedRepo: r, kr: keyring.NewArrayKeyring(nil)}
+	kr := krRepo{TestedRepo: r, kr: keyring.NewArrayKeyring(nil)}
+	if s.in.Keep {
+		s.kept = kr
+		s.tags["process:long-lived"] = true
+		return c15Kept{kr}
+	}
+	return kr
+}
+
+// dropKept: the long-lived process ends (end of the session, or git-bug is removed from the repository)
+func (s *c15Session) dropKept() {
+	if s.kept != nil {
+		_ = s.kept.Close()
+		s.kept = nil
+	}
+}
+
+// hostUser: a command of the host's user, run with stock git; not an action of git-bug: the repository is looked at just
+// before and just after it, and what git-bug must leave alone is compared between such commands only. That stock git can
+// complete the command is itself part of the property (a repository git-bug wrote into can be packed, collected, fetched).
+func (s *c15Session) hostUser(ev map[string]interface{}, args ...string) {
+	for _, a := range args {
+		if a == "gc" {
+			// a collection may delete what a removed entity consisted of: read it now
+			if _, _, err := s.written(); err != nil && s.harvestErr == nil {
+				s.harvestErr = err
+			}
+		}
+	}
+	pre := s.snapshot()
+	out, err := s.git(s.host, args...)
+	ev["git"] = strings.Join(args, " ")
+	if err != nil {
+		ev["err"] = c15Tail(err.Error() + ": " + strings.TrimSpace(out))
+		s.maintBad = append(s.maintBad, fmt.Sprintf("action %d: git %s: %s", s.counter, strings.Join(args, " "), c15Tail(strings.TrimSpace(out))))
+	}
+	// a command that changed nothing stock git shows (pack-refs; a second gc or fetch) does not split the session
+	if post := s.snapshot(); !reflect.DeepEqual(pre, post) {
+		s.breaks = append(s.breaks, [2]c15Snap{pre, post})
+	}
+	s.nHostUser++
+	for _, a := range args {
+		if a == "gc" || a == "fetch" || a == "pack-refs" {
+			s.tags["host-user:"+a] = true
+		}
+	}
 }
 
 func (s *c15Session) idsUnder(prefix string) []string {
@@ -1322,6 +1473,7 @@ func (s *c15Session) do(a c15Action) {
 			}
 			st := repo.LocalStorage()
 			repo.Close()
+			s.dropKept()
 			if e := st.RemoveAll("."); e != nil && first == nil {
 				first = e
 			}
@@ -1329,7 +1481,36 @@ func (s *c15Session) do(a c15Action) {
 		}
 	case "pack-refs":
 		// the host's user packs the references with stock git; nothing git-bug does
-		s.mustGit(s.host, "pack-refs", "--all")
+		if a.N%2 == 1 {
+			s.hostUser(ev, "pack-refs", "--all", "--no-prune") // packed, and the loose files stay
+		} else {
+			s.hostUser(ev, "pack-refs", "--all")
+		}
+	case "gc":
+		// ... or collects garbage (which packs the references and the objects, and expires the reflogs)
+		switch a.N % 3 {
+		case 0:
+			s.hostUser(ev, "gc", "-q")
+		case 1:
+			s.hostUser(ev, "gc", "-q", "--prune=now")
+		default:
+			s.hostUser(ev, "-c", "gc.auto=1", "-c", "gc.autoDetach=false", "gc", "-q", "--auto") // what git runs by itself after a commit or a fetch
+		}
+	case "git-fetch":
+		// ... or fetches: the branches and tags, git-bug's references by hand, or with --prune (which deletes the
+		// remote-tracking references below refs/remotes/<remote>/ that match no branch of the remote, git-bug's among them)
+		rem := a.Remote
+		if rem == "" || (rem == "backup" && !s.in.Host.SecondRemote) {
+			rem = "origin"
+		}
+		switch a.N % 3 {
+		case 0:
+			s.hostUser(ev, "fetch", "-q", rem)
+		case 1:
+			s.hostUser(ev, "fetch", "-q", rem, "+refs/bugs/*:refs/remotes/"+rem+"/bugs/*", "+refs/identities/*:refs/remotes/"+rem+"/identities/*")
+		default:
+			s.hostUser(ev, "fetch", "-q", "--prune", rem)
+		}
 	default:
 		ev["err"] = "unknown action"
 	}
@@ -1421,13 +1602,42 @@ type c15Entry struct {
 // written reads, with stock git, every tree and every commit object that appeared in the host's object store during
 // the session (written by git-bug or fetched by it; reachable or not, so that what a removed or wiped entity consisted
 // of is looked at too): the entries of the trees as stored, the author and committer lines of the commits.
+//
+// It is called at the end of the session and before every git gc of the host's user (which may delete the objects of a
+// removed entity); what earlier calls read is kept.
 func (s *c15Session) written() (trees []c15Tree, idents [][2]string, err error) {
 	var ids []string
+	if s.harvested == nil {
+		s.harvested = map[string]bool{}
+	}
 	for id := range s.objects() {
-		if _, had := s.objsBefore[id]; !had {
+		if _, had := s.objsBefore[id]; !had && !s.harvested[id] {
 			ids = append(ids, id)
+			s.harvested[id] = true
 		}
 	}
+	defer func() {
+		if err == nil {
+			s.seenTrees = append(s.seenTrees, trees...)
+			trees = s.seenTrees
+			merged := map[[2]string]bool{}
+			for _, id := range append(s.seenIdents, idents...) {
+				merged[id] = true
+			}
+			idents = nil
+			for id := range merged {
+				idents = append(idents, id)
+			}
+			sort.Slice(idents, func(i, j int) bool {
+				if idents[i][0] != idents[j][0] {
+					return idents[i][0] < idents[j][0]
+				}
+				return idents[i][1] < idents[j][1]
+			})
+			s.seenIdents = idents
+			sort.Slice(trees, func(i, j int) bool { return trees[i].ID < trees[j].ID })
+		}
+	}()
 	if len(ids) == 0 {
 		return nil, nil, nil
 	}
@@ -1695,6 +1905,11 @@ func (c15Driver) Run(raw json.RawMessage) Case {
 	for i, a := range in.Actions {
 		s.do(a)
 		cur := s.light()
+		if a.Via == "" && a.K != "peer" {
+			// a command of the host's user: what it changed is not git-bug's doing
+			prev = cur
+			continue
+		}
 		var comps []string
 		for _, k := range []string{"refs", "head", "index", "config", "comments"} {
 			if cur[k] != prev[k] {
@@ -1710,8 +1925,20 @@ func (c15Driver) Run(raw json.RawMessage) Case {
 		}
 		prev = cur
 	}
+	s.dropKept() // the long-lived process ends
 	after := s.snapshot()
+	// what git-bug must leave alone is compared over every stretch of the session between two commands of the host's user
+	segs := [][2]c15Snap{}
+	from := before
+	for _, b := range s.breaks {
+		segs = append(segs, [2]c15Snap{from, b[0]})
+		from = b[1]
+	}
+	segs = append(segs, [2]c15Snap{from, after})
 	trees, idents, terr := s.written()
+	if terr == nil {
+		terr = s.harvestErr
+	}
 	fsck, clone, push, notes := s.validity(after)
 	if terr != nil {
 		notes["trees"] = terr.Error()
@@ -1736,9 +1963,13 @@ func (c15Driver) Run(raw json.RawMessage) Case {
 	if in.Host.Detached {
 		tags["host:detached-head"] = true
 	}
-	kinds, cfgDetail := c15CfgDiff(before, after)
-	for k := range kinds {
-		tags[k] = true
+	var cfgDetail []string
+	for _, sg := range segs {
+		kinds, detail := c15CfgDiff(sg[0], sg[1])
+		for k := range kinds {
+			tags[k] = true
+		}
+		cfgDetail = append(cfgDetail, detail...)
 	}
 	frefs := func(sn c15Snap) string {
 		var sb strings.Builder
@@ -1766,7 +1997,11 @@ func (c15Driver) Run(raw json.RawMessage) Case {
 		return sb.String()
 	}
 	var refDetail []string
-	if frefs(before) != frefs(after) {
+	for _, sg := range segs {
+		before, after := sg[0], sg[1]
+		if frefs(before) == frefs(after) {
+			continue
+		}
 		tags["foreign:refs"] = true
 		bm := map[string]string{}
 		for _, r := range before.Refs {
@@ -1783,19 +2018,52 @@ func (c15Driver) Run(raw json.RawMessage) Case {
 				refDetail = append(refDetail, "deleted: "+n)
 			}
 		}
-		sort.Strings(refDetail)
 	}
-	if before.Head != after.Head {
-		tags["foreign:head"] = true
+	sort.Strings(refDetail)
+	for _, sg := range segs {
+		before, after := sg[0], sg[1]
+		if before.Head != after.Head {
+			tags["foreign:head"] = true
+		}
+		if before.Index != after.Index {
+			tags["foreign:index"] = true
+		}
+		if pairs(before.Wt) != pairs(after.Wt) {
+			tags["foreign:worktree"] = true
+		}
+		if ffiles(before) != ffiles(after) {
+			tags["foreign:gitdir-files"] = true
+		}
 	}
-	if before.Index != after.Index {
-		tags["foreign:index"] = true
+	// references stock git reports as broken at any moment of the session; commands of the host's user that stock git refused
+	var brokenNames []string
+	for n := range s.broken {
+		brokenNames = append(brokenNames, n)
 	}
-	if pairs(before.Wt) != pairs(after.Wt) {
-		tags["foreign:worktree"] = true
+	sort.Strings(brokenNames)
+	if len(brokenNames) > 0 {
+		tags["refs:bad"] = true
+		var ds []string
+		for _, n := range brokenNames {
+			ds = append(ds, n+" ("+s.broken[n]+")")
+		}
+		notes["broken-references"] = strings.Join(ds, "; ")
 	}
-	if ffiles(before) != ffiles(after) {
-		tags["foreign:gitdir-files"] = true
+	if len(s.refNotice) > 0 {
+		var ls []string
+		for l := range s.refNotice {
+			ls = append(ls, l)
+		}
+		sort.Strings(ls)
+		notes["for-each-ref"] = c15Tail(strings.Join(ls, "\n"))
+	}
+	if len(s.maintBad) > 0 {
+		tags["host-user:bad"] = true
+		notes["stock-git-command-refused"] = c15Tail(strings.Join(s.maintBad, "\n"))
+	}
+	if s.nHostUser > 0 {
+		tags[fmt.Sprintf("n:host-user-commands=%d", s.nHostUser)] = true
+		tags[fmt.Sprintf("n:stretches=%d", len(segs))] = true
 	}
 	if !fsck {
 		tags["fsck:bad"] = true
@@ -1872,7 +2140,11 @@ func (c15Driver) Run(raw json.RawMessage) Case {
 
 	// ---- Coq term
 	var ds []string
-	for _, sn := range []c15Snap{before, after} {
+	allSnaps := []c15Snap{before, after}
+	for _, b := range s.breaks {
+		allSnaps = append(allSnaps, b[0], b[1])
+	}
+	for _, sn := range allSnaps {
 		for _, x := range sn.Refs {
 			ds = append(ds, x[1])
 		}
@@ -1956,8 +2228,13 @@ func (c15Driver) Run(raw json.RawMessage) Case {
 	}
 	// the peer's repository is made by newTestRepo (world.go): user.name and user.email only
 	peerCfg := identCfg([][2]string{{"user.name", "testuser"}, {"user.email", "testuser@example.com"}})
-	term := fmt.Sprintf("mkcase %s %s %s %s %s %s %s %s %s %s %s", c15SnapTerm(before, rk), c15SnapTerm(after, rk), coqList(s.coq), coqList(tts),
-		coqBool(fsck), coqBool(clone), coqBool(push), coqList(xts), coqList(its), identCfg(before.Cfg), peerCfg)
+	var bts []string
+	for _, b := range s.breaks {
+		bts = append(bts, "("+c15SnapTerm(b[0], rk)+", "+c15SnapTerm(b[1], rk)+")")
+	}
+	term := fmt.Sprintf("mkcase %s %s %s %s %s %s %s %s %s %s %s %s %s %s", c15SnapTerm(before, rk), c15SnapTerm(after, rk), coqList(s.coq), coqList(tts),
+		coqBool(fsck), coqBool(clone), coqBool(push), coqList(xts), coqList(its), identCfg(before.Cfg), peerCfg,
+		coqList(bts), coqStrs(brokenNames), coqBool(len(s.maintBad) == 0))
 
 	var tl []string
 	for t := range tags {
@@ -1966,6 +2243,7 @@ func (c15Driver) Run(raw json.RawMessage) Case {
 	sort.Strings(tl)
 	obs := map[string]interface{}{"actions": s.log, "first_disturbing_action": firstDisturb, "foreign_config_changes": cfgDetail,
 		"foreign_ref_changes": refDetail, "fsck": fsck, "clone_gc_fsck": clone, "push_with_receive_fsck": push, "notes": notes,
-		"refs_after": len(after.Refs), "trees": len(trees), "author_committer_lines": len(idents), "multi_operation_commits": len(s.extras)}
+		"refs_after": len(after.Refs), "trees": len(trees), "author_committer_lines": len(idents), "multi_operation_commits": len(s.extras),
+		"long_lived_process": in.Keep, "host_user_commands": s.nHostUser, "stretches_compared": len(segs), "broken_references": brokenNames, "stock_git_commands_refused": len(s.maintBad)}
 	return Case{Coq: term, Obs: obs, Tags: tl, NonTrivial: s.wrote, Key: string(raw)}
 }
